@@ -5,6 +5,8 @@
 From CR Require Import Model.Wildcard.
 From CR Require Import Proofs.WildcardSort.
 From CR Require Import Proofs.Wildcard.
+From CR Require Corr.C15.
+From CR Require Import Proofs.WildcardCorr15.
 From Coq Require Import Permutation Sorted Lia.
 Local Open Scope N_scope.
 
@@ -85,6 +87,14 @@ Proof.
   intros. destruct routes as [l|]; cbn; split; try reflexivity; discriminate.
 Qed.
 
+(* the specification checker that is evaluated on the implementation's observed output (Corr.C15.holds)
+   accepts the model's output on every input *)
+Theorem C15_checker_accepts_model :
+  forall prf lifetime deprecated epoch now routes,
+  Corr.C15.holds (Corr.C15.mkCase prf lifetime deprecated epoch now routes
+    (route_Apply true 0 0 prf lifetime deprecated epoch now routes)) = true.
+Proof. exact Proofs.WildcardCorr15.C15_checker_accepts_model. Qed.
+
 (* non-vacuity: the three lists on which the code failed before a252649, and a mixed dump *)
 Definition db8 (bits : N) : sysroute := mkRoute false 0x20010db8000000000000000000000000 bits.
 Definition ex_dump : list sysroute :=
@@ -117,4 +127,5 @@ Print Assumptions C15_no_overlap_needs_canonical.
 Print Assumptions C15_cover.
 Print Assumptions C15_uniform.
 Print Assumptions C15_error.
+Print Assumptions C15_checker_accepts_model.
 Print Assumptions C15_example.
